@@ -349,7 +349,7 @@ def stateful_sequence(kind, arch):
     from ..common import pattern, net_sizes
     sizes = net_sizes(kind, arch)
     seq = []
-    for q in range(5):
+    for q in range(7):
         ps = [pattern(n, q, r) for r, n in enumerate(sizes)]
         if kind == "mixed":
             from ..common import aux_bias_slice
